@@ -558,7 +558,8 @@ impl Dominance for ModelDominance<'_> {
     type Key = u32;
     fn get_key(&self, s: Arc<St>) -> Option<u32> {
         match self.0.dom {
-            DomMode::Keyed => Some(s.x.count_ones() % 2),
+            // states whose cardinality is a multiple of 3 take no part in the relation (no key)
+            DomMode::Keyed => if s.x.count_ones() % 3 == 0 { None } else { Some(s.x.count_ones() % 2) },
             _ => Some(0),
         }
     }
